@@ -1,2 +1,188 @@
-From PK Require Import Client.Client Client.Framing.
-Theorem c19_placeholder : True. Proof. exact I. Qed.
+(* C19 - the client reports exactly what the server answered.
+   Model: theories/Client/Client.v (KMIPProxy + ProxyKmipClient result handling), Framing.v (KMIPProtocol.read).
+   Tie K: harness/c19.py (scripted responder and real server stack; Coq compares, ClientCases.check_ccase). *)
+From PK Require Import Base.Bytes Client.Client Client.Framing Client.ClientProofs Client.FramingProofs.
+From Coq Require Import ZArith List Bool.
+Import ListNotations.
+Open Scope Z_scope.
+
+(* ---- tie T: the operation codes of the model are those of kmip/core/enums.py *)
+Theorem opcodes_match_enums : forall o, in_table o = true.
+Proof. exact ClientProofs.opcodes_match_enums. Qed.
+Print Assumptions opcodes_match_enums.
+
+(* ---- success: data comes back iff the status is Success, and it is exactly the payload's *)
+Theorem success_iff_status :
+  forall o it p, is_pie o = true -> legal_success o it p ->
+    exists v, spec_return o p = Some v /\ interpret o (Decoded [it]) = Return v.
+Proof. exact success_returns_payload_data. Qed.
+Print Assumptions success_iff_status.
+
+Example success_iff_status_inhabited :
+  legal_success OMac
+    {| ri_op := Some 35; ri_status := 0; ri_reason := None; ri_msg := None;
+       ri_payload := Some [(PUniqueIdentifier, VBytes [49]); (PMacData, VBytes [1; 2; 3])] |}
+    [(PUniqueIdentifier, VBytes [49]); (PMacData, VBytes [1; 2; 3])].
+Proof. repeat split. Qed.
+
+Theorem returns_only_on_success :
+  forall o r v, interpret o r = Return v ->
+    exists it rest, r = Decoded (it :: rest) /\ ri_status it = SUCCESS.
+Proof. exact ClientProofs.returns_only_on_success. Qed.
+Print Assumptions returns_only_on_success.
+
+Example returns_only_on_success_inhabited :
+  interpret OCreate (Decoded [{| ri_op := Some 1; ri_status := 0; ri_reason := None; ri_msg := None;
+                                 ri_payload := Some [(PObjectType, VInt 2); (PUniqueIdentifier, VBytes [55]);
+                                                     (PTemplateAttribute, VNone)] |}]) = Return (VBytes [55]).
+Proof. vm_compute. reflexivity. Qed.
+
+Theorem never_success_on_failure :
+  forall o it rest v, ri_status it <> SUCCESS -> interpret o (Decoded (it :: rest)) <> Return v.
+Proof. exact ClientProofs.never_success_on_failure. Qed.
+Print Assumptions never_success_on_failure.
+
+Theorem undecodable_raises : forall o, interpret o Undecodable = RaiseOther.
+Proof. exact ClientProofs.undecodable_raises. Qed.
+Print Assumptions undecodable_raises.
+
+Theorem empty_response_raises : forall o, interpret o (Decoded []) = RaiseOther.
+Proof. exact ClientProofs.empty_response_raises. Qed.
+Print Assumptions empty_response_raises.
+
+(* ---- failure: whenever an operation-failure error is raised it carries the response verbatim *)
+Theorem raise_carries_exact :
+  forall o r c st rs m, interpret o r = Raise c st rs m ->
+    exists it rest, r = Decoded (it :: rest) /\
+      ri_status it = st /\ st <> SUCCESS /\ ri_reason it = Some rs /\ ri_msg it = m.
+Proof. exact ClientProofs.raise_carries_exact. Qed.
+Print Assumptions raise_carries_exact.
+
+Example raise_carries_exact_inhabited :
+  interpret OEncrypt (Decoded [{| ri_op := Some 31; ri_status := 1; ri_reason := Some 12; ri_msg := None;
+                                  ri_payload := None |}]) = Raise FPie 1 12 None.
+Proof. vm_compute. reflexivity. Qed.
+
+(* every legal failure is raised as an operation failure carrying status, reason, message.
+   Full-strength statement: ClientProofs.failure_carries_statement - REFUTED on the code as it is
+   (known findings C19-pie-failure-without-message-*, C19-check-failure-crashes). *)
+Theorem failure_carries_partial :
+  forall o it rs, is_pie o = true -> legal_failure o it rs ->
+    o <> OCheck ->
+    (message_read_unguarded o = true -> ri_msg it <> None) ->
+    interpret o (Decoded [it]) = Raise (failure_class o) (ri_status it) rs (ri_msg it).
+Proof. exact ClientProofs.failure_carries_partial. Qed.
+Print Assumptions failure_carries_partial.
+
+Example failure_carries_partial_inhabited :
+  legal_failure OGet {| ri_op := Some 10; ri_status := 1; ri_reason := Some 1; ri_msg := Some [110; 111];
+                        ri_payload := None |} 1 /\ OGet <> OCheck.
+Proof. split; [|discriminate]. repeat split; auto. discriminate. Qed.
+
+Theorem failure_carries_refuted :
+  exists o it rs, is_pie o = true /\ legal_failure o it rs /\ interpret o (Decoded [it]) = RaiseOther.
+Proof. exact ClientProofs.failure_carries_refuted. Qed.
+Print Assumptions failure_carries_refuted.
+
+Theorem failure_carries_statement_refuted : ~ failure_carries_statement.
+Proof.
+  intros H. destruct ClientProofs.failure_carries_refuted as (o & it & rs & P & L & E).
+  rewrite (H o it rs P L) in E. discriminate.
+Qed.
+Print Assumptions failure_carries_statement_refuted.
+
+Theorem missing_message_always_crashes :
+  forall o it rs, is_pie o = true -> legal_failure o it rs -> message_read_unguarded o = true -> ri_msg it = None ->
+    interpret o (Decoded [it]) = RaiseOther.
+Proof. exact ClientProofs.missing_message_always_crashes. Qed.
+Print Assumptions missing_message_always_crashes.
+
+Theorem check_failure_refuted :
+  forall it rs, legal_failure OCheck it rs -> interpret OCheck (Decoded [it]) = RaiseOther.
+Proof. exact ClientProofs.check_failure_refuted. Qed.
+Print Assumptions check_failure_refuted.
+
+(* ---- KMIPProxy: result objects / dictionaries carry exactly status, reason and message *)
+Theorem proxy_copies_exactly : forall o it rest, copies it (proxy_call o (Decoded (it :: rest))).
+Proof. exact ClientProofs.proxy_copies_exactly. Qed.
+Print Assumptions proxy_copies_exactly.
+
+Theorem proxy_failure_reported_partial :
+  forall o it rs, legal_failure o it rs -> o <> OCheck ->
+    (o = ODiscoverVersions -> ri_op it = None) ->
+    (style_of o = SPayload -> ri_msg it <> None) ->
+    proxy_call o (Decoded [it]) <> PExc.
+Proof. exact ClientProofs.proxy_failure_reported. Qed.
+Print Assumptions proxy_failure_reported_partial.
+
+Theorem proxy_discover_failure_refuted :
+  legal_failure ODiscoverVersions discover_failure 5 /\
+  proxy_call ODiscoverVersions (Decoded [discover_failure]) = PExc.
+Proof. exact ClientProofs.proxy_discover_failure_refuted. Qed.
+Print Assumptions proxy_discover_failure_refuted.
+
+Theorem proxy_check_failure_refuted :
+  forall it rs, legal_failure OCheck it rs -> proxy_call OCheck (Decoded [it]) = PExc.
+Proof. exact ClientProofs.proxy_check_failure_refuted. Qed.
+Print Assumptions proxy_check_failure_refuted.
+
+(* ---- framing: chunk independence, intact delivery, early end of stream *)
+Theorem read_is_a_function_of_the_stream :
+  forall cs, chunks_ok cs -> bytes_ok (concat cs) = true -> flatten (read cs) = read_stream (concat cs).
+Proof. exact read_spec. Qed.
+Print Assumptions read_is_a_function_of_the_stream.
+
+Theorem client_framing :
+  forall cs1 cs2, chunks_ok cs1 -> chunks_ok cs2 -> concat cs1 = concat cs2 -> bytes_ok (concat cs1) = true ->
+    flatten (read cs1) = flatten (read cs2).
+Proof. exact FramingProofs.client_framing. Qed.
+Print Assumptions client_framing.
+
+Example client_framing_inhabited :
+  let a := [[66; 0; 123]; [1; 0; 0; 0]; [2; 9]; [9; 7]] in
+  let b := [[66; 0; 123; 1; 0; 0; 0; 2; 9; 9; 7]] in
+  concat a = concat b /\ read a = FOk [66; 0; 123; 1; 0; 0; 0; 2; 9; 9] [[7]] /\ read b = FOk [66; 0; 123; 1; 0; 0; 0; 2; 9; 9] [[7]].
+Proof. vm_compute. auto. Qed.
+
+Theorem frame_delivered_intact :
+  forall cs f more, chunks_ok cs -> bytes_ok (f ++ more) = true -> is_frame f -> concat cs = f ++ more ->
+    exists rest, read cs = FOk f rest /\ concat rest = more.
+Proof. exact FramingProofs.frame_delivered_intact. Qed.
+Print Assumptions frame_delivered_intact.
+
+Theorem early_end_raises :
+  forall cs f k, chunks_ok cs -> bytes_ok f = true -> is_frame f -> (k < length f)%nat -> concat cs = firstn k f ->
+    read cs = FEof \/ exists e r, read cs = FShort e r.
+Proof. exact FramingProofs.early_end_raises. Qed.
+Print Assumptions early_end_raises.
+
+Example early_end_raises_inhabited :
+  is_frame [66; 0; 123; 1; 0; 0; 0; 2; 9; 9] /\ read [[66; 0; 123]; [1; 0; 0; 0; 2; 9]] = FShort 2 1.
+Proof. split; [exists [66; 0; 123; 1; 0; 0; 0; 2], [9; 9]; repeat split | vm_compute; reflexivity]. Qed.
+
+Theorem read_leaves_transport_ok : forall cs f rest, chunks_ok cs -> read cs = FOk f rest -> chunks_ok rest.
+Proof. exact FramingProofs.read_leaves_transport_ok. Qed.
+Print Assumptions read_leaves_transport_ok.
+
+(* ---- end to end, for any response decoder *)
+Theorem client_call_chunk_independent :
+  forall decode o cs1 cs2, chunks_ok cs1 -> chunks_ok cs2 -> concat cs1 = concat cs2 -> bytes_ok (concat cs1) = true ->
+    client_call decode o cs1 = client_call decode o cs2.
+Proof. exact FramingProofs.client_call_chunk_independent. Qed.
+Print Assumptions client_call_chunk_independent.
+
+Theorem client_call_complete :
+  forall decode o cs f more, chunks_ok cs -> bytes_ok (f ++ more) = true -> is_frame f -> concat cs = f ++ more ->
+    client_call decode o cs = interpret o (decode f).
+Proof. exact FramingProofs.client_call_complete. Qed.
+Print Assumptions client_call_complete.
+
+Theorem client_call_truncated_raises :
+  forall decode o cs f k, chunks_ok cs -> bytes_ok f = true -> is_frame f -> (k < length f)%nat -> concat cs = firstn k f ->
+    client_call decode o cs = RaiseOther.
+Proof. exact FramingProofs.client_call_truncated_raises. Qed.
+Print Assumptions client_call_truncated_raises.
+
+(* ---- requests: see RequestProofs (envelope round trip) when present; the decodability of every
+   request payload under every version is established by correspondence K(a) against the real
+   server stack (harness/c19.py server_cases). *)
